@@ -100,6 +100,26 @@ def run(ctx):
         "dyadic values); the operations that differ between the two types are parameters of the model (int division "
         "truncates and panics on zero; Floor/Ceil are the identity on int; float division by zero prints +inf/-inf/nan); "
         "inputs on which Go int arithmetic would wrap are not generated",
+        "HAND-TRANSCRIBED, outside the translator tie (gossa covers package xmath/geom only): every function of "
+        "xmath/geom/poly that the model has — Contour.Contains (loop over c[i], c[(i+1)%len]; model: countP of edgeHit "
+        "over Contour.edges, C18.contour_edges proves the edge list is that index walk), Contour.Bounds (min/max loop "
+        "from MaxValue/MinValue + extent with its Nextafter branch), Polygon.Bounds / Contains / ContainsEvenOdd "
+        "(loops; model: foldl union / any / countP), Polygon.Transform (Clone + in-place loop; model: nested List.map), "
+        "Contour.Clone / Polygon.Clone / Polygon.Empty. Their link to the Go code is reading plus the correspondence "
+        "lines `poly ccontains / cbounds / pcontains / pevenodd / pbounds / ptransform / pempty / pclone / cclone` "
+        "(exact dyadic float64) and `pd cbounds / pbounds` (float64 under rounding); statements that merely unfold the "
+        "model's map / countP (transform_maps_vertices, transform_compose, empty_polygon, evenodd_spec) are helper "
+        "lemmas in Lemmas/GeomExt.lean and are NOT counted as property theorems",
+        "Contour.Bounds / Polygon.Bounds UNDER ROUNDING, model-based (stream `pd` of area poly): the source form "
+        "boundsSrc at Lean's Float with the guarded branch of extent transcribed (widenSrc: Nextafter(hi, MaxValue) - lo, "
+        "then at most 4 further Nextafter widenings while hi is not below lo+size; nextUpF64 transcribes math.Nextafter "
+        "towards MaxFloat64) on contours of magnitudes 2^52..MaxFloat64, mixed magnitudes and opposite huge signs, compared "
+        "with Go bit for bit. PROVED: extent_widen_spec (for any `next`, the branch returns the first of its five "
+        "candidates that encloses hi, the fifth if none does) and extent_guard_dead (branch unreachable in exact "
+        "arithmetic). ONLY RUN, not proved: that one of the five candidates always encloses hi under IEEE rounding — in "
+        "the generated domain at most ONE widening was ever needed for finite coordinates below MaxFloat64; for a vertex AT "
+        "MaxFloat64 the cap is exhausted and the vertex is not In its bounds (corpus poly.bounds-double.ops; no finite far "
+        "edge can exceed it); float32 is covered by the floatspec oracle only",
         "Polygon.Empty, Contour.Clone and Polygon.Clone are modelled as values (area `poly`, ops pempty/pclone/cclone); "
         "that Clone returns nil for length 0, leaves the operand untouched and shares no storage with it is observed "
         "on the Go side and printed as part of the compared line",
@@ -174,7 +194,8 @@ def run(ctx):
              theorem=th % "transform_multiply / transform_translate / transform_scale / transform_rotate / identity_neutral")
     ctx.diff(area="poly", driver="drv_c18", timeout=300, n={"quick": 120000, "thorough": 2000000}, tagger=tg,
              theorem=th % "contour_contains_crossing / evenodd_crossing / polygon_contains_crossing / bounds_encloses / "
-                          "bounds_tight / bounds_src_rat / transform_maps_vertices / transform_compose / empty_polygon")
+                          "bounds_tight / bounds_src_rat / extent_widen_spec (stream pd: Bounds at Lean Float); Transform / Clone / Empty and the "
+                          "loops of Contains / ContainsEvenOdd are tied by these lines only")
     ctx.diff(area="arith", driver="drv_c18", timeout=300, n={"quick": 160000, "thorough": 2000000}, tagger=tg,
              theorem=th % "transform_point_arith / constrain_spec / int64_point_size_agree (stream aw)")
     ctx.impl_oracle("rotate", n={"quick": 20000, "thorough": 400000},
